@@ -14,7 +14,7 @@ LEVEL = "exploration"
 
 RULE = ("all 62 type expressions of list depth 0..4 (every placement of `!`) x named type kind {Int, Float, String, Boolean, ID, "
         "custom scalar, enum, object, interface, union | input object} x position {response field, variable, input-object "
-        "field (with schema-level default values), @oneOf member (nullable expressions only), object field whose interface declares "
+        "field (with schema-level default values), variable of a second operation that re-declares every name with another expression, @oneOf member (nullable expressions only), object field whose interface declares "
         "it without any `!` (selected on the object, on the interface, and on the object inside a variant)} x schema format {SDL, SDL that "
         "declares the built-in scalars, introspection JSON bare and data-wrapped with all built-in and meta types}; every emitted field / "
         "variant type is compared with rule(expr): `T!` -> inner, `[T]` -> Vec<..>, nullable -> Option<..>; built-in scalar "
@@ -137,7 +137,17 @@ def build_doc(s, exprs):
         isel.append(["field", "g" + it[2][1:], it[2], None, it[4]])
     isel.append(["inline", "Holder", [["field", "h" + it[2][1:], it[2], None, it[4]] for it in sel]])
     op = {"kind": "query", "name": "Q", "vars": vs, "sel": [["field", None, "holder", None, sel], ["field", None, "holderI", None, isel]]}
-    return {"operations": [op], "fragments": []}
+    # a second operation of the same document declares the SAME variable names with other type expressions (the expression 7
+    # places further in the enumeration): each operation's Variables follow its own declarations
+    vs2 = []
+    for k, n in IN_KINDS.items():
+        for ci, c in enumerate(exprs):
+            vs2.append({"name": "v_%s_%s" % (k, c or "p"), "type": build_type(exprs[(ci + SHIFT) % len(exprs)], n), "default": None})
+    op2 = {"kind": "query", "name": "Second", "vars": vs2, "sel": [["field", None, "holder", None, [sel[0]]]]}
+    return {"operations": [op, op2], "fragments": []}
+
+
+SHIFT = 7
 
 
 def main(run):
@@ -173,13 +183,21 @@ def main(run):
                 run.violation({"id": "%s-alias-%s" % (fmt, a), "corpus": "clean"}, "alias %s = %s, expected %s" % (a, aliases.get(a), tgt))
             else:
                 run.held()
-        seen = {"f": 0, "v": 0, "i": 0, "o": 0, "g": 0, "h": 0}
+        seen = {"f": 0, "v": 0, "i": 0, "o": 0, "g": 0, "h": 0, "w": 0}
 
-        def check(pos, key, ty, one_of=False):
+        def check(pos, key, ty, one_of=False, second=False):
             m = re.match(r"^([fvioghj])_([a-z]+)_([nlp]+)$", key)
             if not m:
                 return
             posc, kind, code = m.groups()
+            if second:
+                # the second operation re-declares the name with the expression SHIFT places further on
+                if posc != "v":
+                    return
+                ci = exprs.index("" if code == "p" else code)
+                code = exprs[(ci + SHIFT) % len(exprs)] or "p"
+                posc = "w"
+                pos = "variable re-declared by the second operation"
             t = by_code[code]
             if posc == "g":
                 # selected on the interface itself: the interface's declaration (no `!` anywhere)
@@ -192,6 +210,8 @@ def main(run):
             run.evaluated()
             seen[posc] += 1
             gql = (OUT_KINDS if posc in ("f", "g", "h") else IN_KINDS)[kind]
+            if second:
+                key = key + " (second operation)"
             ok = shape == exp
             if ok:
                 if kind in ("object", "interface", "union"):
@@ -211,15 +231,18 @@ def main(run):
         for it in items:
             if it["kind"] == "struct":
                 pos = {"Variables": "variable", "Big": "input-object field"}.get(it["name"], "response field")
+                second = bool(it.get("path")) and it["path"][0] == "second"
+                if second and it["name"] != "Variables":
+                    continue        # the second operation's response types repeat a part of the first's
                 for f in it["fields"]:
-                    check(pos, f["key"] or "", f["type"])
-            elif it["kind"] == "enum" and it["name"] == "One":
+                    check(pos, f["key"] or "", f["type"], second=second)
+            elif it["kind"] == "enum" and it["name"] == "One" and not (it.get("path") and it["path"][0] == "second"):
                 for v in it["variants"]:
                     key = v["serde"].get("rename") or v["ident"]
                     check("@oneOf member", key, v["payload"][0] if v["payload"] else "", one_of=True)
         n_out, n_in = len(OUT_KINDS) * len(exprs), len(IN_KINDS) * len(exprs)
         n_one = len(s.types["One"]["fields"])
-        for posc, want in (("f", n_out), ("v", n_in), ("i", n_in), ("o", n_one), ("g", n_out), ("h", n_out)):
+        for posc, want in (("f", n_out), ("v", n_in), ("i", n_in), ("o", n_one), ("g", n_out), ("h", n_out), ("w", n_in)):
             run.count("%s:%s" % (fmt, posc), seen[posc])
             if seen[posc] != want:
                 run.violation({"id": "%s-count-%s" % (fmt, posc), "corpus": "clean"}, "expected %d fields at position %s, found %d" % (want, posc, seen[posc]))
